@@ -76,6 +76,11 @@ struct OpenDocument {
     revision: DocumentRevision,
 }
 
+/// The state of all open documents together: it changes whenever any of them is
+/// opened, edited or closed.
+#[derive(Clone, Copy, Debug, Eq, PartialEq)]
+struct WorkspaceRevision(u64);
+
 struct SessionState {
     compiler: CompilerSession,
     open_documents: HashMap<PathBuf, OpenDocument>,
@@ -107,6 +112,15 @@ impl SessionState {
     fn close_document(&mut self, path: &Path) {
         self.open_documents.remove(path);
         let _ = self.compiler.clear_overlay(path);
+        // Closing a document changes what its importers see, like an edit does.
+        self.next_document_revision = self
+            .next_document_revision
+            .checked_add(1)
+            .expect("document revision counter overflowed");
+    }
+
+    fn workspace_revision(&self) -> WorkspaceRevision {
+        WorkspaceRevision(self.next_document_revision)
     }
 
     fn revision(&self, path: &Path) -> Option<DocumentRevision> {
@@ -120,6 +134,9 @@ impl SessionState {
 
 struct CachedProject {
     revision: Option<DocumentRevision>,
+    /// The open documents the analysis saw. A root's project also depends on
+    /// the documents it imports, so its own revision does not identify it.
+    workspace: WorkspaceRevision,
     project: ProjectState,
 }
 
@@ -168,17 +185,19 @@ impl Cajun {
             | Ok(path) => path,
             | Err(error) => return RefreshOutcome::Failed(error),
         };
-        let revision = {
+        let (revision, workspace) = {
             let session = self.session.lock().await;
-            session.revision(&path)
+            (session.revision(&path), session.workspace_revision())
         };
-        // Fast path: an unchanged open document reuses its cached analysis.
-        // Re-analyzing on every request would both waste the session's
-        // memoized queries and replace the project editors are reading.
+        // Fast path: an open document reuses its cached analysis while no open
+        // document has changed. Re-analyzing on every request would both waste
+        // the session's memoized queries and replace the project editors are
+        // reading.
         if revision.is_some() {
             let projects = self.projects.read().await;
             if let Some(cached) = projects.get(&path)
                 && cached.revision == revision
+                && cached.workspace == workspace
             {
                 return RefreshOutcome::Updated(path);
             }
@@ -200,20 +219,25 @@ impl Cajun {
             | Ok(analysis) => analysis,
             | Err(error) => {
                 return self
-                    .commit_analysis(path, revision, Err(format!("analysis task failed: {error}")))
+                    .commit_analysis(
+                        path,
+                        revision,
+                        workspace,
+                        Err(format!("analysis task failed: {error}")),
+                    )
                     .await;
             }
         };
         match analysis {
             | AnalysisTask::Completed(project) => {
-                self.commit_analysis(path, revision, project).await
+                self.commit_analysis(path, revision, workspace, project).await
             }
             | AnalysisTask::Cancelled => RefreshOutcome::Superseded,
         }
     }
 
     async fn commit_analysis(
-        &self, path: PathBuf, revision: Option<DocumentRevision>,
+        &self, path: PathBuf, revision: Option<DocumentRevision>, workspace: WorkspaceRevision,
         result: std::result::Result<ProjectState, String>,
     ) -> RefreshOutcome {
         let session = self.session.lock().await;
@@ -223,7 +247,7 @@ impl Cajun {
         let mut projects = self.projects.write().await;
         match result {
             | Ok(project) => {
-                projects.insert(path.clone(), CachedProject { revision, project });
+                projects.insert(path.clone(), CachedProject { revision, workspace, project });
                 RefreshOutcome::Updated(path)
             }
             | Err(error) => {
